@@ -75,7 +75,10 @@ func verifBodyEffect(cb *CodeBuilder, pkg *Package, tag string, budget int) {
 		if vp.Bool(tag + ".const") {
 			e.CVal = constant.MakeInt64(1)
 		}
+		l0 := cb.InternalStack().Len()
 		cb.Val(e).EndStmt()
+		// every completed statement leaves the stack where it was (a skipped constant statement included)
+		vp.Assert("C16.stmt.balanced", cb.InternalStack().Len() == l0)
 	}
 	cb.current.flows |= vp.Int(tag+".flows", 0, 31)
 	if budget > 0 && vp.Choose(tag+".nest", 2) == 1 {
